@@ -17,7 +17,7 @@ import struct
 
 from hypothesis import strategies as st
 
-from vlib import tools
+from vlib import patient, tools
 from vlib import elf as E
 from vlib.core import Check, Discard, Inconclusive, OracleSplit, Violation
 from vlib.elf import Elf
@@ -249,28 +249,28 @@ class C36(Check):
         members = []
         inputs = []
         for o in objs:
-            tools.asm(asm_of(o, len(objs), refs), f"o{o['i']}.o", cwd=d)
+            patient.asm(asm_of(o, len(objs), refs), f"o{o['i']}.o", cwd=d)
             if o["where"] == "ar":
                 members.append(f"o{o['i']}.o")
             else:
                 inputs.append(f"o{o['i']}.o")
         if members:
-            tools.ar("libm.a", members, cwd=d)
+            patient.ar("libm.a", members, cwd=d)
             inputs.append("libm.a")
         if case["dep"]:
             dep = {"i": 99, "stack": "x", "props": {F1_AND: 0, ISA_NEEDED: 8, ISA_USED: 8}, "two": False, "has_note": True}
-            tools.asm(asm_of(dep, 0, []), "dep.o", cwd=d)
-            tools.must(tools.link("ld", ["-shared", "-o", "libdep.so", "dep.o", "-z", "noexecstack"], cwd=d), "building libdep.so")
+            patient.asm(asm_of(dep, 0, []), "dep.o", cwd=d)
+            tools.must(patient.link("ld", ["-shared", "-o", "libdep.so", "dep.o", "-z", "noexecstack"], cwd=d), "building libdep.so")
             inputs.append("libdep.so")
         args = {"exe": [], "pie": ["-pie"], "shared": ["-shared"]}[case["out"]] + ["--no-gc-sections", "-e", "_start"]
         if z:
             args += ["-z", z]
         if case["isa"]:
             args += ["-z", case["isa"]]
-        rl = tools.link("ld", [*args, *inputs, "-o", "ld.out"], cwd=d)
+        rl = patient.link("ld", [*args, *inputs, "-o", "ld.out"], cwd=d)
         if rl.rc != 0:
             raise Discard("GNU ld rejects: " + rl.err.strip().split("\n")[-1].split(": ", 1)[-1][:40])
-        rw = tools.link("wild", [*args, *inputs, "-o", "wild.out"], cwd=d)
+        rw = patient.link("wild", [*args, *inputs, "-o", "wild.out"], cwd=d)
         if rw.timed_out:
             raise Inconclusive("wild timed out")
         if rw.rc != 0:
